@@ -49,7 +49,15 @@ type c10case struct {
 	// HashTwin (sessions without add-path): path 2 differs from path 0 only in how the AS_PATH is cut into segments
 	// ([a b] vs [a][b]) instead of in ATOMIC_AGGREGATE - the two have the same path hash but are different paths
 	HashTwin bool `json:"hash_twin,omitempty"`
-	Gated    bool `json:"gated,omitempty"` // gated-writer explorer: the last op is a removal issued while the sender is held inside the write of the round that carries its announcement
+	Gated    bool `json:"gated,omitempty"` // gated-writer explorer: the last op(s) are issued while the sender is held inside the write of the round that carries the queued announcement(s)
+	// Held (gated explorer) is the number of trailing operations issued while the sender is held (0 = 1). HoldPath, when
+	// not 0, is 1 + the index of the path whose UPDATE the gate waits for (0: the first write of the round).
+	Held     int `json:"held,omitempty"`
+	HoldPath int `json:"hold_path,omitempty"`
+	// RxIDs: which paths carry a path identifier of their own, i.e. were learned from a neighbour that sends add-path
+	// (0 none, 1 path 1 carries identifier 7, 2 paths 0 and its twin carry 5 and path 1 carries 7). An Adj-RIB-Out with
+	// add-path TX overwrites it with its own; one without keeps it, and it must not leak into the peer's view.
+	RxIDs int `json:"rx_ids,omitempty"`
 }
 
 const localASN = 64999
@@ -70,6 +78,12 @@ func pathSpec(c *c10case, i int) bgpx.PathSpec {
 			p.ASPath = []bgpx.Seg{{T: 2, A: []uint32{65101}}, {T: 2, A: []uint32{65200}}}
 		}
 	}
+	switch {
+	case c.RxIDs >= 1 && id == 1:
+		p.PathID = 7
+	case c.RxIDs == 2 && id == 0:
+		p.PathID = 5
+	}
 	p.Comms = []uint32{0x00640000 + uint32(id)}
 	if s.V6 {
 		p.NextHop = [2]uint64{0x20010db800000000, uint64(1 + id)}
@@ -79,11 +93,13 @@ func pathSpec(c *c10case, i int) bgpx.PathSpec {
 	return p
 }
 
-func universe(v6 bool) [2]gen.P {
+// the histories of the deterministic and real-timer explorers use prefixes 0 and 1; the third one is for the gated
+// explorer (a further prefix for a path that is already queued for two)
+func universe(v6 bool) [3]gen.P {
 	if v6 {
-		return [2]gen.P{{Hi: 0x20010db800010000, Len: 48}, {Hi: 0x20010db800010000, Lo: 0, Len: 64}}
+		return [3]gen.P{{Hi: 0x20010db800010000, Len: 48}, {Hi: 0x20010db800010000, Lo: 0, Len: 64}, {Hi: 0x20010db800020000, Len: 47}}
 	}
-	return [2]gen.P{{V4: true, Hi: 0xc0a80000 << 32, Len: 16}, {V4: true, Hi: 0xc0a80100 << 32, Len: 24}}
+	return [3]gen.P{{V4: true, Hi: 0xc0a80000 << 32, Len: 16}, {V4: true, Hi: 0xc0a80100 << 32, Len: 24}, {V4: true, Hi: 0xc0a80200 << 32, Len: 23}}
 }
 
 // proj is the projection compared: the unique id (community) and the ATOMIC_AGGREGATE flag.
@@ -112,7 +128,7 @@ type rig struct {
 	rib *adjRIBOut.AdjRIBOut
 	u   *server.UpdateSender
 	cap *bgpx.Capture
-	uni [2]gen.P
+	uni [3]gen.P
 }
 
 func newRig(c *c10case) *rig {
@@ -209,7 +225,11 @@ type outcome struct {
 // judge compares the two views and reports the differences.
 func judge(c *c10case, peer, rib view, clause string, hits int, rep func(clause string, f map[string]string, detail string)) bool {
 	bad := false
-	ctx := fmt.Sprintf("%s ebgp=%v ops=%s rounds=%b timer=%v: peer view %s, Adj-RIB-Out %s", c.Sess, c.EBGP, opsString(c.Ops), c.Rounds, c.Timer, peer, rib)
+	how := fmt.Sprintf("rounds=%b timer=%v", c.Rounds, c.Timer)
+	if c.Gated {
+		how = fmt.Sprintf("gated: the last %d operation(s) issued while the sender was inside the write of %s", max(c.Held, 1), map[bool]string{true: "the round's first UPDATE", false: fmt.Sprintf("the UPDATE carrying path %d", c.HoldPath-1)}[c.HoldPath == 0])
+	}
+	ctx := fmt.Sprintf("%s ebgp=%v rx_ids=%d ops=%s %s: peer view %s, Adj-RIB-Out %s", c.Sess, c.EBGP, c.RxIDs, opsString(c.Ops), how, peer, rib)
 	for k, pv := range peer {
 		rv, ok := rib[k]
 		switch {
@@ -308,10 +328,13 @@ func runTimer(c *c10case, r *vf.Run, rep func(clause string, f map[string]string
 	return
 }
 
-// runGated holds the sender's ticker goroutine inside the connection write of the round that carries the queued
-// announcement(s) and issues the history's last operation (a removal) meanwhile. A sender that keeps its queue lock
-// while it writes makes the removal wait; one that released the lock lets the withdrawal overtake the announcement.
-// The 50 ms grace only gives the removal time to run; the verdict is the final view comparison.
+// runGated holds the sender's ticker goroutine inside a connection write of the round that carries the queued
+// announcement(s) - the first write, or the write of the UPDATE that carries path HoldPath-1 - and issues the history's
+// last Held operations meanwhile: the removal of a queued path, or the addition of a path that is already queued (for
+// other prefixes) and is just being written. A sender that keeps its queue lock while it writes makes them wait; one
+// that released the lock lets a withdrawal overtake the announcement, or lets an addition join a queue entry whose
+// prefixes were packed already. The 50 ms grace only gives the operations time to run; the verdict is the final
+// view comparison.
 func runGated(c *c10case, r *vf.Run, rep func(clause string, f map[string]string, detail string)) (out outcome) {
 	defer func() {
 		if p := recover(); p != nil {
@@ -321,20 +344,49 @@ func runGated(c *c10case, r *vf.Run, rep func(clause string, f map[string]string
 		}
 	}()
 	g := newRig(c)
-	n := len(c.Ops)
-	for _, o := range c.Ops[:n-1] {
+	held := c.Held
+	if held == 0 {
+		held = 1
+	}
+	n := len(c.Ops) - held
+	for _, o := range c.Ops[:n] {
 		g.apply(o)
 	}
-	last := c.Ops[n-1]
-	if g.u.VerifPendingFor(g.uni[last.Pfx].Bio()) == 0 {
-		return // nothing queued for that prefix: not a case of this explorer
+	clause := "view-mismatch-gated"
+	if c.HoldPath == 0 {
+		if g.u.VerifPendingFor(g.uni[c.Ops[n].Pfx].Bio()) == 0 {
+			return // nothing queued for that prefix: not a case of this explorer
+		}
+	} else {
+		clause = "view-mismatch-added-during-write"
+		if g.u.VerifPending() == 0 {
+			return
+		}
 	}
 	out.hits = 1
+	target := ""
+	if c.HoldPath != 0 {
+		sp := pathSpec(c, c.HoldPath-1)
+		target = projBio(sp.Bio())
+	}
 	var armed atomic.Bool
 	entered := make(chan struct{}, 1)
 	release := make(chan struct{})
 	armed.Store(true)
-	g.cap.Gate = func([]byte) {
+	g.cap.Gate = func(b []byte) {
+		if !armed.Load() {
+			return
+		}
+		if target != "" {
+			_, body, bad := bgpx.CheckFrame(b)
+			if bad != "" {
+				return
+			}
+			up, err := wire.DecodeUpdate(body, c.Sess.WireOpts())
+			if err != nil || len(up.Announced()) == 0 || projWire(up.PA) != target {
+				return
+			}
+		}
 		if armed.CompareAndSwap(true, false) {
 			entered <- struct{}{}
 			<-release
@@ -352,7 +404,9 @@ func runGated(c *c10case, r *vf.Run, rep func(clause string, f map[string]string
 	}
 	done := make(chan struct{})
 	go func() {
-		g.apply(last)
+		for _, o := range c.Ops[n:] {
+			g.apply(o)
+		}
 		close(done)
 	}()
 	select {
@@ -371,7 +425,7 @@ func runGated(c *c10case, r *vf.Run, rep func(clause string, f map[string]string
 		rep("undecodable", vf.F(), bad)
 		return
 	}
-	out.mismatch = judge(c, peer, g.ribView(), "view-mismatch-gated", out.hits, rep)
+	out.mismatch = judge(c, peer, g.ribView(), clause, out.hits, rep)
 	return
 }
 
@@ -457,7 +511,7 @@ func kinds(all bool) []c10case {
 		}
 		for _, ap := range []bool{false, true} {
 			for _, ebgp := range []bool{false, true} {
-				out = append(out, c10case{Sess: bgpx.Sess{V6: v6, MP: v6, AddPath: ap, IBGP: !ebgp, AS4: true}, EBGP: ebgp})
+				out = append(out, c10case{Sess: bgpx.Sess{V6: v6, MP: v6, AddPath: ap, IBGP: !ebgp, AS4: true}, EBGP: ebgp, RxIDs: 1})
 			}
 		}
 	}
@@ -467,7 +521,7 @@ func kinds(all bool) []c10case {
 func main() {
 	vf.Main("C10", "exploration", func(r *vf.Run) {
 		bgpx.Quiet()
-		r.Rule("universe: 2 prefixes x 3 paths (unique community as id; without add-path the third path is a twin of the first differing only in ATOMIC_AGGREGATE or, in the hash-twin variant, only in how the AS_PATH is cut into segments, so that both have the same path hash), operations AddPath/RemovePath on a real Adj-RIB-Out whose client is the real update sender; session kinds {IPv4, IPv6-MP} x add-path on/off x {plain iBGP, eBGP to a route-server client} (the kinds in which the Adj-RIB-Out stores paths unmodified). Histories are well-formed (a path is removed only while advertised and added only while not; without add-path an addition replaces the prefix's path). Deterministic explorer: ALL well-formed histories of length 1..4 (quick; 1..5 thorough; IPv4 kinds) and PRNG histories of length 5..7 (all kinds), each under EVERY placement of aggregation rounds between operations (2^len placements, round = EndOfRIB()), final drain, then replay(UPDATE stream) == AdjRIBOut.Dump(). Real-timer explorer: sender started with its 5 ms ticker, PRNG histories with delays of 0..8 ms, drained by VerifPending()==0 + Destroy(). distinct_nontrivial = (history, placement) pairs in which a withdrawal was written while an announcement of the same prefix was still queued (measured through the queue hook at the moment of the operation)")
+		r.Rule("universe: 2 prefixes x 3 paths (unique community as id; without add-path the third path is a twin of the first differing only in ATOMIC_AGGREGATE or, in the hash-twin variant, only in how the AS_PATH is cut into segments, so that both have the same path hash), operations AddPath/RemovePath on a real Adj-RIB-Out whose client is the real update sender; session kinds {IPv4, IPv6-MP} x add-path on/off x {plain iBGP, eBGP to a route-server client} (the kinds in which the Adj-RIB-Out stores paths unmodified). Histories are well-formed (a path is removed only while advertised and added only while not; without add-path an addition replaces the prefix's path). Deterministic explorer: ALL well-formed histories of length 1..4 (quick; 1..5 thorough; IPv4 kinds) and PRNG histories of length 5..7 (all kinds), each under EVERY placement of aggregation rounds between operations (2^len placements, round = EndOfRIB()), final drain, then replay(UPDATE stream) == AdjRIBOut.Dump(). Gated-writer explorer: the sender's ticker goroutine is held inside the connection write of a queued UPDATE (capture gate) while (a) a queued path is removed, (b) a path that is queued for one or two prefixes and is just being written is added for a further prefix (one or two additions, or an addition plus the removal of the first prefix); then released and drained. In every explorer path 1 carries a path identifier it was received with (7; in half of the PRNG/gated/real-timer cases paths 0 and 2 carry 5 as well), which an Adj-RIB-Out without add-path TX keeps. Real-timer explorer: sender started with its 5 ms ticker, PRNG histories with delays of 0..8 ms, drained by VerifPending()==0 + Destroy(). distinct_nontrivial = (history, placement) pairs in which a withdrawal was written while an announcement of the same prefix was still queued (measured through the queue hook at the moment of the operation)")
 		r.Assume("the projection compared per (prefix, path id) is the unique community plus the ATOMIC_AGGREGATE flag", "End-of-RIB markers and UPDATEs without NLRI change nothing in the replayed view", "a withdrawal of a route the peer does not hold is ignored by the replay")
 		r.NonDeterministic("view-mismatch-realtime")
 		var vmu sync.Mutex
@@ -550,6 +604,7 @@ func main() {
 				rng := r.RandN("c10-det", i)
 				k := ks[i%len(ks)]
 				k.HashTwin = !k.Sess.AddPath && (i/len(ks))%2 == 1
+				k.RxIDs = 1 + (i/(2*len(ks)))%2
 				runAll(k, randHist(rng, k.Sess.AddPath, 5+rng.IntN(3)), fmt.Sprintf("r%d", i))
 			})
 		}
@@ -558,10 +613,12 @@ func main() {
 		r.Count("deterministic_pairs", int(pairs))
 		r.Count("pairs_with_withdrawal_hitting_queued_announcement", int(hitPairs))
 		r.Set("exhaustive_history_lengths", fmt.Sprintf("1..%d, all well-formed histories x 4 IPv4 session kinds x all round placements", maxLen))
-		// gated-writer explorer: add [, add ...], then the removal of a queued path while the round is being written
-		ng := 0
+		// gated-writer explorer: add [, add ...], then - while the round is being written - the removal of a queued path
+		// and/or the addition of an already queued path for a further prefix
+		var gcases []c10case
 		for rep := 0; rep < r.N(2, 40); rep++ {
 			for _, k := range ks {
+				k.RxIDs = 1 + rep%2
 				for pf := 0; pf < 2; pf++ {
 					for pa := 0; pa < 3; pa++ {
 						c := k
@@ -569,15 +626,43 @@ func main() {
 						if pa > 0 && k.Sess.AddPath {
 							c.Ops = append(c.Ops, op{Add: true, Pfx: pf, Path: 0})
 						}
+						pre := append([]op(nil), c.Ops...)
 						c.Ops = append(c.Ops, op{Add: true, Pfx: 1 - pf, Path: pa}, op{Add: true, Pfx: pf, Path: pa}, op{Add: false, Pfx: pf, Path: pa})
-						o := runGated(&c, r, mk(c))
-						ng += o.hits
-						r.Eval(1)
+						gcases = append(gcases, c)
+						mk := func(held int, ops ...op) {
+							d := k
+							d.Gated, d.Held, d.HoldPath = true, held, 1+pa
+							d.Ops = append(append([]op(nil), pre...), ops...)
+							gcases = append(gcases, d)
+						}
+						// the path is queued for one prefix and being written: a second prefix gets the same path
+						mk(1, op{Add: true, Pfx: pf, Path: pa}, op{Add: true, Pfx: 1 - pf, Path: pa})
+						// queued for two prefixes: a third one gets it
+						mk(1, op{Add: true, Pfx: pf, Path: pa}, op{Add: true, Pfx: 1 - pf, Path: pa}, op{Add: true, Pfx: 2, Path: pa})
+						// a second prefix gets the path and the first one loses it
+						mk(2, op{Add: true, Pfx: pf, Path: pa}, op{Add: true, Pfx: 1 - pf, Path: pa}, op{Add: false, Pfx: pf, Path: pa})
+						// two further prefixes get it
+						mk(2, op{Add: true, Pfx: pf, Path: pa}, op{Add: true, Pfx: 2, Path: pa}, op{Add: true, Pfx: 1 - pf, Path: pa})
 					}
 				}
 			}
 		}
-		r.Count("gated_writer_cases", ng)
+		var ng, ngAdd int64
+		vf.Parallel(len(gcases), 6, func(i int) {
+			c := gcases[i]
+			o := runGated(&c, r, mk(c))
+			atomic.AddInt64(&ng, int64(o.hits))
+			if c.HoldPath != 0 {
+				atomic.AddInt64(&ngAdd, int64(o.hits))
+			}
+			r.Eval(1)
+			if o.hits > 0 {
+				r.Nontrivial(fmt.Sprintf("g/%s/%v/%d/%s/%d/%d", c.Sess, c.EBGP, c.RxIDs, opsString(c.Ops), c.Held, c.HoldPath))
+			}
+		})
+		r.Count("gated_writer_cases_adding_a_queued_path_during_its_write", int(ngAdd))
+		r.Require("gated_writer_cases_adding_a_queued_path_during_its_write", 150)
+		r.Count("gated_writer_cases", int(ng))
 		r.Require("gated_writer_cases", 40)
 		// real-timer explorer
 		timerExplorer(r, mk, r.N(400, 20000), "c10-timer")
@@ -607,6 +692,7 @@ func timerExplorer(r *vf.Run, mk func(c10case) func(string, map[string]string, s
 		rng := r.RandN(stream, i)
 		c := ks[i%len(ks)]
 		c.Timer = true
+		c.RxIDs = 1 + (i/len(ks))%2
 		c.Ops = randHist(rng, c.Sess.AddPath, 3+rng.IntN(5))
 		for j := range c.Ops {
 			c.Ops[j].DelayUs = rng.IntN(8000)
